@@ -349,6 +349,28 @@ def deep_peel(e):
     return p
 
 
+def derived_facts(body, facts):
+    """a fact about a bool local that was assigned the result of a comparison (`let quoted = sep == "'" || ..`) is a fact
+    about that comparison: of the definitions of the local, the constant ones that disagree with the fact cannot be the
+    one that reached here; when exactly one other definition remains, the fact holds for its expression"""
+    out = list(facts)
+    for atom, val in list(facts):
+        if atom[0] != "var" or not isinstance(val, bool) or body.locals[atom[1]]["ty"] != "bool":
+            continue
+        cands = []
+        for bi, si in body.defs.get(atom[1], []):
+            e = strip_sites(body.def_expr(bi, si))
+            cb = mir.const_bool(e)
+            if cb is not None:
+                if cb == val:
+                    cands.append(None)          # a constant definition agreeing with the fact: nothing to learn
+                continue
+            cands.append(e)
+        if len(cands) == 1 and cands[0] is not None:
+            out.append((cands[0], val))
+    return out
+
+
 def guard_ok(cls, tag, facts):
     """facts: iterable of (atom, val). tag: stripped expr of field 0 of the token."""
     empty = None
@@ -481,7 +503,7 @@ def check_inspection(crate, insp, local_inspectors=()):
         if bb in effects:
             n += 1
             # facts at block entry; edge facts into bb are already included
-            if not guard_ok(insp.cls, tag, facts):
+            if not guard_ok(insp.cls, tag, derived_facts(body, facts)):
                 if bad is None or bb < bad[0]:
                     bad = (bb, facts)
     if bad is not None:
